@@ -21,7 +21,7 @@ def _sig(kind, params):
 
 def cq_sig(quick):
     sig = [("e", x) for x in (
-        "H", "X", "S", "CX", "Rz(0.3)", "Ry(-0.7)", "CRz(0.25)", "Ket(0)", "Ket(1)", "Bra(0)", "Bra(1)",
+        "H", "X", "S", "CX", "Rz(0.2996)", "Ry(-0.7)", "CRz(0.25)", "Ket(0)", "Ket(1)", "Bra(0)", "Bra(1)",
         "Bits(1)", "Bits(0)", "Bits(1).dagger()",
         "Measure()", "Measure(destructive=False)", "Measure(override_bits=True)",
         "Measure(destructive=False, override_bits=True)",
@@ -32,6 +32,8 @@ def cq_sig(quick):
         "scalar(0.6+0.8j)", "scalar(0.5j)", "scalar(0.25, is_mixed=True)", "sqrt(2)",
         "Swap(bit, qubit)", "Swap(qubit, bit)", "Swap(bit, bit)", "SWAP")]
     sig += [("e", x) for x in ("Measure(2)", "Discard(2)", "MixedState(2)", "Ket(0, 1)", "Bra(1, 0)")]
+    # boxes that share a printed name with another box of the alphabet but differ in content
+    sig += [("e", x) for x in ("Rz(0.3004)", "scalar(0.25)", "ClassicalGate('noisy', 1, 1, [0.5, 0.5, 0.1, 0.9])")]
     if not quick:
         sig += [("e", x) for x in ("Discard(bit @ qubit)", "Y", "T", "Encode(2)", "Measure(2, destructive=False)")]
     return sig
@@ -91,6 +93,19 @@ def check_circuit(params):
             tuple(o.name for o in got.cod.quantum.objects) != (2,) * nq_out:
         bad("cq-type", "eval(mixed=True) : %s -> %s" % (got.dom, got.cod))
     kinds = set(dk) | {o.name for lay in d.layers.boxes for o in lay.cod.objects}
+    types = [dk] + [[o.name for o in lay.cod.objects] for lay in d.layers.boxes]
+    needs_mixed = any("bit" in t and "qubit" in t for t in types) \
+        or any(getattr(b, "is_mixed", False) for b in d.boxes)
+    if needs_mixed:
+        try:
+            default = d.eval()
+            da = np.asarray(default.array, dtype=complex)
+            if type(default).__name__ != "CQMap" or da.size != A.size or not qref.close(da.reshape(A.shape), A):
+                bad("default-eval", "bits and qubits coexist (or a box is mixed) but eval() without mixed=True "
+                    "is not the classical-quantum evaluation (got a %s with %d entries)"
+                    % (type(default).__name__, da.size))
+        except Exception as e:  # noqa
+            bad("default-eval-raises", "eval() raised %s: %s" % (type(e).__name__, str(e)[:100]))
     if not d.is_mixed and kinds <= {"qubit"}:
         from discopy.quantum.cqmap import CQMap
         pure = d.eval()
@@ -209,7 +224,20 @@ def run(ctx):
                 "measure(mixed=True) vs the reference distribution. nontrivial = distinct circuits")
     ctx.assumptions = ["reference in mc/qref.py built from textbook definitions with numpy kron/matmul",
                        "pytket Op.get_unitary for gate matrices; tolerance 1e-9"]
-    items = [("circuit", dict(recipe=r)) for r in uni]
+    E = lambda x: ("e", x)  # noqa
+    mids = []
+    for bitbox in ("Bits(1)", "Bits(0)"):
+        for ket in ("Ket(0)", "Ket(1)"):
+            for g in ("Rx(0.2)", "H", "Ry(-0.7)", "X"):
+                for bra in ("Bra(0)", "Bra(1)"):
+                    for side in (0, 1):   # bit on the left / on the right of the qubit
+                        lay = [(E(bitbox), 0), (E(ket), 1 - side if side else 1)] if side == 0 else \
+                            [(E(ket), 0), (E(bitbox), 1)]
+                        q = 1 if side == 0 else 0
+                        lay += [(E(g), q), (E(bra), q)]
+                        mids.append(("circuit", (), tuple(lay)))
+    ctx.note("directed_family", "%d circuits where a bit and a qubit coexist only mid-circuit" % len(mids))
+    items = [("circuit", dict(recipe=r)) for r in uni + mids]
     for p in pmap(_worker, build.shards(items, 128)):
         ctx.merge(p)
     ctx.counters["traces_validated_against_impl"] = ctx.counters.get("transitions", 0)
